@@ -101,3 +101,30 @@ func VerifC20Selection() {
 	verifAssert("stub.iff.text", stub == text)
 	verifAssert("exactly.one", stub != noasm)
 }
+
+// VerifC20TransformPurego: with the purego tag the package's transform is the portable one;
+// it must equal the reference as well (so hashes do not depend on the tag).
+//
+//verif:tags purego
+//verif:maxsteps 400000000
+func VerifC20TransformPurego() {
+	var lfrom, hfrom [StateSize]uint
+	for i := range lfrom {
+		lfrom[i] = uint(verifU64("l"))
+		hfrom[i] = uint(verifU64("h"))
+	}
+	wl, wh := verifReference(&lfrom, &hfrom)
+	var al, ah [StateSize]uint
+	l2, h2 := lfrom, hfrom
+	transform(&al, &ah, &l2, &h2)
+	ok := true
+	for i := 0; i < StateSize; i++ {
+		if al[i] != wl[i] || ah[i] != wh[i] {
+			ok = false
+		}
+	}
+	verifAssert("purego.equals.reference", ok)
+	// and the sponge built on it
+	c := NewCurlP81()
+	verifAssert("purego.state", c.l[0] == ^uint(0) && c.direction == SpongeAbsorbing)
+}
